@@ -22,8 +22,8 @@ PROPS = {
               "Gx.checkMonitor_sound", "Gx.checkScheme_sound"] + COMMON,
              ["Gx.Pins.argument_maps"],
              ns.make_run(be.c03_case, 10, 150, be.big_cfg, extra=be.cond_extra, quick_s=170, case_s=120), be.c03_case),
-    "C04": P("GotranxProofs.Properties.C04 GotranxProofs.GenValid",
-             ["Gx.GenValid.genRhs_valid", "Gx.GenValid.genEuler_valid", "Gx.GenValid.slot_map_self", "Gx.C04.index_bijective", "Gx.C04.slotOf_iff", "Gx.C04.layout_counts", "Gx.C04.init_sound", "Gx.C04.init_unknown_key",
+    "C04": P("GotranxProofs.Properties.C04 GotranxProofs.GenValid GotranxProofs.GenValidMon",
+             ["Gx.GenValid.genRhs_valid", "Gx.GenValid.genEuler_valid", "Gx.GenValidMon.genMonitor_valid", "Gx.GenValidMon.genMonitor_correct", "Gx.GenValid.slot_map_self", "Gx.C04.index_bijective", "Gx.C04.slotOf_iff", "Gx.C04.layout_counts", "Gx.C04.init_sound", "Gx.C04.init_unknown_key",
               "Gx.C04.monitor_slots", "Gx.C04.rhs_slots", "Gx.C04.formals_are_permutations", "Gx.checkMonitor_sound", "Gx.checkRhs_sound"] + COMMON,
              ["Gx.Pins.orders_are_permutations", "Gx.Pins.argument_maps", "Gx.Pins.removal_flags"],
              ns.c04_run, ns.c04_case),
